@@ -77,6 +77,11 @@ func (h *Handler) handleDiscover(p packet.DHCP4, options packet.DHCP4Options) (d
 		}
 	}
 
+	// an address kept from an earlier message is only offered again while it is still available
+	if lease.IPOffer.IsValid() && !h.ipAvailable(lease, lease.IPOffer) {
+		lease.IPOffer = netip.Addr{}
+	}
+
 	if !lease.IPOffer.IsValid() {
 		if err := h.allocIPOffer(lease, reqIP); err != nil {
 			Logger.Msg("discover all ips allocated, failing silently").Error(err).Write()
